@@ -92,15 +92,19 @@ theorem TextBlind.toR {γ : Type} {ctl : Controller γ} {E : γ → γ → Prop}
 section
 variable {γ : Type}
 
+/-- emission waits to resume: it is disabled and the controller wants it enabled (the flag an end-tag hint
+raises when it ends the removed element, and the next tag lexeme lowers) -/
+def pendE (ctl : Controller γ) (d : Disp γ) : Bool := !d.emissionEnabled && ctl.shouldEmit d.ctl
+
 /-- `handle_tag` is about to flip `emission_enabled` on without resetting `remaining_content_start`:
 a start-tag lexeme while emission is disabled and the controller wants it enabled -/
 def bareResume (ctl : Controller γ) (lx : TagLexeme) (d : Disp γ) : Bool :=
-  lx.outline.isStart && !d.emissionEnabled && ctl.shouldEmit d.ctl
+  pendE ctl d && lx.outline.isStart
 
 /-- **The guarded dispatcher**: `dispOps` with an assertion in `handle_tag`. -/
 def guardOps (ctl : Controller γ) : SinkOps (Disp γ) :=
   { handleTag := fun inp lx d =>
-      if bareResume ctl lx d then (d, .error (.panic "handle_tag: start tag while emission waits to resume"))
+      if bareResume ctl lx d then (d, .error (.panic "guard: tag lexeme of the wrong kind while a hint is pending"))
       else Disp.handleTag ctl inp lx d
     handleNonTag := Disp.handleNonTag ctl
     startTagHint := Disp.startTagHint ctl
@@ -481,7 +485,7 @@ theorem handleTag_sim {E : γ → γ → Prop} {inpS inpW : Bytes} {δ : Nat} (F
   show OpRel _ (if bareResume ctl ⟨pc + δ, raw, o⟩ ds = true then _ else _)
     (if bareResume ctl ⟨pc, shR δ raw, shTag δ o⟩ dw = true then _ else _)
   have hbr : bareResume ctl ⟨pc, shR δ raw, shTag δ o⟩ dw = bareResume ctl ⟨pc + δ, raw, o⟩ ds := by
-    unfold bareResume
+    unfold bareResume pendE
     simp only [isStart_sh]
     rw [h.eq.em, ← hcl.emit _ _ h.ctl]
   rw [hbr]
@@ -492,7 +496,7 @@ theorem handleTag_sim {E : γ → γ → Prop} {inpS inpW : Bytes} {δ : Nat} (F
   have hng : ¬ (o.isStart = true ∧ ds.emissionEnabled = false ∧ ctl.shouldEmit ds.ctl = true) := by
     intro ⟨a, b, c⟩
     apply hg
-    unfold bareResume
+    unfold bareResume pendE
     simp [a, b, c]
   unfold Disp.handleTag
   let R1 : Disp γ → Disp γ → Prop := fun a b => DK0 E inpS inpW δ a b ∧
